@@ -115,7 +115,7 @@ def quiet(fn):
 call_st = st.one_of(
     st.fixed_dictionaries({"f": st.just("map"), "layers": st.lists(st.sampled_from(["L1", "L2", "L3"]), min_size=1, max_size=2),
                            "scatter": st.sampled_from([False, False, True]),
-                           "res": st.sampled_from(["R", "R", "int"]), "dz": st.sampled_from([None, None, 0.3, 0.6]),
+                           "res": st.sampled_from(["R", "R", "int"]), "dz": st.sampled_from([None, None, 0.3141, 0.6271]),
                            "op": st.sampled_from([None, "mean", "sum"]), "dx": st.sampled_from(["DX", "DX", None]),
                            "origin": st.sampled_from(["O", "O", None]), "dir": st.sampled_from(["z", "x", "N"]),
                            "plot": st.sampled_from([False, False, False, False, False, True]),
@@ -152,9 +152,9 @@ def _world(case):
         "L4": Layer(osyris.Vector(*[osyris.Array(values=np.array([0.2, 0.5, 0.8, 0.55]) + 0.01 * i, unit="cm") for i in range(3)],
                                   name="sinks"), mode="scatter", c="red"),
         "R": {k: {"x": 8, "y": 4, "z": 3}[k] for k in case["rkeys"]},
-        "O": osyris.Vector(0.53, 0.45, 0.57, unit="cm"),
+        "O": osyris.Vector(0.5317, 0.4523, 0.5711, unit="cm"),
         "N": osyris.Vector(1.0, 0.5, 2.0),
-        "DX": 0.9 * osyris.units("cm"),
+        "DX": 0.9137 * osyris.units("cm"),
         "AX": osyris.Array(values=np.linspace(1.0, 9.0, n), unit="cm", name="ax"),
         "AY": osyris.Array(values=np.linspace(2.0, 30.0, n) ** 1.5, unit="g", name="ay"),
         "AS": osyris.Array(values=np.linspace(0.1, 0.2, n), unit="cm", name="as"),
@@ -330,14 +330,14 @@ def lattice(case, r):
     if f == "map":
         la = dg.layer("scalar1", **lay_kw)
         lb = dg.layer("scalar2")
-        p, exc = quiet(lambda: osyris.map(la, lb, direction="z", dx=0.9 * osyris.units("cm"), dz=0.5 * osyris.units("cm"),
-                                          origin=osyris.Vector(0.52, 0.47, 0.56, unit="cm"), resolution={"x": 5, "y": 5, "z": 4},
+        p, exc = quiet(lambda: osyris.map(la, lb, direction="z", dx=0.9137 * osyris.units("cm"), dz=0.5171 * osyris.units("cm"),
+                                          origin=osyris.Vector(0.5217, 0.4723, 0.5611, unit="cm"), resolution={"x": 5, "y": 5, "z": 4},
                                           plot=False, **call_kw))
         ref = {}
         for op in ("sum", "mean"):
             ref[op], _ = quiet(lambda op=op: osyris.map(dg.layer("scalar1"), dg.layer("scalar2"), direction="z",
-                                                        dx=0.9 * osyris.units("cm"), dz=0.5 * osyris.units("cm"),
-                                                        origin=osyris.Vector(0.52, 0.47, 0.56, unit="cm"),
+                                                        dx=0.9137 * osyris.units("cm"), dz=0.5171 * osyris.units("cm"),
+                                                        origin=osyris.Vector(0.5217, 0.4723, 0.5611, unit="cm"),
                                                         resolution={"x": 5, "y": 5, "z": 4}, plot=False, operation=op))
     elif f == "hist2d":
         x = osyris.Array(values=np.linspace(1.0, 9.0, n), unit="cm")
